@@ -135,6 +135,13 @@ def run(tier, replay):
                 V.known("KF_TornHeaderAppend", desc)
             else:
                 V.violation(bad[0][:300], desc)
+        # the reporter's interim write overlapping the final write (they share <outfile>.tmp)
+        co = os.path.join(wd, "conc.json")
+        rc, out = vlib.go_test(wd, "./internal/mapr", OV, "TestC15Concurrent", env={"VERIF_OUT": co, "VERIF_N": 20000 if tier == "quick" else 120000}, timeout=900)
+        if rc != 0 or not os.path.exists(co):
+            raise vlib.Inconclusive("concurrent writers harness failed\n" + out[-2000:])
+        for b in json.load(open(co))["bad"] or []:
+            V.violation("interim write overlapping the final write: " + b, {"bad": b})
         cov = {"states": states, "transitions": trans, "traces_validated_against_impl": len(cases),
                "evaluations": sum(len(r["snaps"]) for r in results), "distinct_nontrivial": kills,
                "rule": "cases = histories of Outfile.tla enumerated by TLC for 4 run shapes (interim+final non-append, append, repeated runs; each "
